@@ -63,6 +63,11 @@ TIE_SEARCH = {
     "fnv_write_tie": ("TieHash", "FnvHasher::write"),
     "store_find_index_tie": ("TieIntern", "find_index"), "store_find_index_is_findIndex": ("TieIntern", "find_index"),
     "store_get_tie": ("TieIntern", "ObjStringStore::get"),
+    "stack_peek_form": ("TieStack", "Stack::peek"), "stack_peek_checked": ("TieStack", "Stack::peek"), "stack_peek_unchecked": ("TieStack", "Stack::peek"),
+    "stack_push_form": ("TieStack", "Stack::push"), "stack_push_checked": ("TieStack", "Stack::push"), "stack_push_unchecked": ("TieStack", "Stack::push"),
+    "stack_pop_form": ("TieStack", "Stack::pop"), "stack_pop_checked": ("TieStack", "Stack::pop"), "stack_pop_unchecked": ("TieStack", "Stack::pop"),
+    "stack_truncate_form": ("TieStack", "Stack::truncate"), "stack_truncate_checked": ("TieStack", "Stack::truncate"),
+    "stack_truncate_unchecked": ("TieStack", "Stack::truncate"),
     "store_adjust_capacity_tie": ("TieIntern", "ObjStringStore::adjust_capacity"), "rehash_loop_tie": ("TieIntern", "ObjStringStore::adjust_capacity"),
     "store_insert_tie": ("TieIntern", "ObjStringStore::insert"), "store_insert_on_reachable": ("TieIntern", "ObjStringStore::insert"),
     "grow_test_exact": ("TieIntern", "ObjStringStore::insert"),
